@@ -48,7 +48,7 @@ func main() {
 		isish.ChildMain(runCase)
 	}
 	vf.Main("C33", "exploration", func(r *vf.Run) {
-		r.Rule("every sequence of link up / link down device events of length 1..6 on one IS-IS interface (126 sequences) x {active, passive} x {0, 6, 11} s of mock time after every event (so that the hello, PSNP and CSNP tickers fire in every interface state) = 756 scenarios, each on a fresh server built in the daemon's order (New, Start, AddInterface, device events via device.MockServer), executed in child processes. Oracles: no panic (recovered in the event call, or process death attributed through the batch protocol); GetAdjacencies/GetLSDB return after every event; after a final link up on an active interface a hello is sent on the ethernet handle the server currently holds within 2 hello intervals of mock time, and a neighbor sending valid hellos on that handle (real receive path) reaches Up. distinct_nontrivial = scenarios containing at least one up->down or down->up change. Clause prefix iface-without-device: = same with a second configured interface that never receives a device event (sample; reported separately because the statement speaks of event sequences). Link loss as the device layer reports it (RFC 2863 operational states; only IfOperUp is a usable link, delivered through a device.Updater of the harness): every sequence over {unknown, notPresent, down, lowerLayerDown, testing, dormant, up} of length 1..3 on an active interface (399; thorough 1..4) and 1..2 on a passive one (56; thorough 1..3) plus random sequences of length 4..8 (40; thorough 1500), same oracles, feature loss = the state that reported the most recent link loss. Device events racing with received PDUs (16 scenarios; thorough 200): 150 rounds of link up, 1..4 PDUs of a neighbor (hellos in the three adjacency states, LSP, CSNP, PSNP) put into the socket, 0..30 scheduler yields, link loss (down or another non-up state) reported without waiting for the receiver; every device event must return (clause event-hang: watchdog of 15 s on a call that takes microseconds, confirmed by replays in fresh processes; detail lists the goroutines inside the IS-IS server), then link up with the hello and adjacency oracles; coverage counts in how many rounds a PDU was being processed / still queued when the loss was reported")
+		r.Rule("every sequence of link up / link down device events of length 1..6 on one IS-IS interface (126 sequences) x {active, passive} x {0, 6, 11} s of mock time after every event (so that the hello, PSNP and CSNP tickers fire in every interface state) = 756 scenarios, each on a fresh server built in the daemon's order (New, Start, AddInterface, device events via device.MockServer), executed in child processes. Oracles: no panic (recovered in the event call, or process death attributed through the batch protocol); GetAdjacencies/GetLSDB return after every event; after a final link up on an active interface a hello is sent on the ethernet handle the server currently holds within 2 hello intervals of mock time, and a neighbor sending valid hellos on that handle (real receive path) reaches Up. distinct_nontrivial = scenarios containing at least one up->down or down->up change. Clause prefix iface-without-device: = same with a second configured interface that never receives a device event (sample; reported separately because the statement speaks of event sequences). Link loss as the device layer reports it (RFC 2863 operational states; only IfOperUp is a usable link, delivered through a device.Updater of the harness): every sequence over {unknown, notPresent, down, lowerLayerDown, testing, dormant, up} of length 1..3 on an active interface (399; thorough 1..4) and 1..2 on a passive one (56; thorough 1..3) plus random sequences of length 4..8 (40; thorough 1500), same oracles, feature loss = the state that reported the most recent link loss. Device events racing with received PDUs (16 scenarios; thorough 200): 150 rounds of link up, 1..4 PDUs of a neighbor (hellos in the three adjacency states, LSP, CSNP, PSNP) put into the socket, then either the harness spins until the receiver goroutine has taken the first PDU or yields 0..30 times, link loss (down or another non-up state) reported without waiting for the receiver; every device event must return (clause event-hang: watchdog of 10 s on a call that takes microseconds, confirmed by replays in fresh processes; detail lists the goroutines inside the IS-IS server), then link up with the hello and adjacency oracles; coverage counts in how many rounds a PDU was being processed / still queued when the loss was reported")
 		r.Assume("mock clock advanced in 1 s steps; after each step the harness yields until no tick is pending in a bio-rd goroutine and the adjacency table and the number of sent frames are unchanged over three reads",
 			"device events are delivered synchronously through device.MockServer (interface index 0)")
 		r.Watchdog("event-hang")
@@ -82,13 +82,18 @@ func main() {
 		}
 		r.Sample(map[string]any{"kind": "iface", "scenario": stateCases[len(stateCases)-1]})
 		// device events racing with PDUs being received
+		// (spread over the case list, hence over the child processes: a stuck one costs its watchdog)
 		nRace := r.N(16, 200)
+		stride := len(cases) / nRace
 		for i := 0; i < nRace; i++ {
 			ic := isish.GenInflightCase(r.RandN("c33-inflight", i), 150)
 			if i == 0 {
 				r.Sample(map[string]any{"kind": "iface", "scenario": ic})
 			}
-			cases = append(cases, isish.Case{Kind: "iface", Raw: isish.MustJSON(ic)})
+			at := i * (stride + 1)
+			cases = append(cases, isish.Case{})
+			copy(cases[at+1:], cases[at:])
+			cases[at] = isish.Case{Kind: "iface", Raw: isish.MustJSON(ic)}
 		}
 		for i := 0; i < len(cases) && i < 200; i += 67 {
 			r.Sample(map[string]any{"kind": cases[i].Kind, "scenario": json.RawMessage(cases[i].Raw)})
@@ -107,6 +112,6 @@ func main() {
 		r.Require("events_oper_unknown", 100)
 		r.Require("final_up_after_loss_lowerLayerDown", 10)
 		r.Require("inflight_rounds", int64(nRace*150/2))
-		r.Require("loss_events_with_pdu_being_processed", int64(nRace*5))
+		r.Require("loss_events_with_pdu_being_processed", int64(nRace*3))
 	})
 }
